@@ -12,6 +12,11 @@ CHECKS = {
          "property-based testing (rapid): generated declarations x argument vectors compared field by field with a reference semantics",
          "Generated search over declaration x argv (all option types, nested namespaced groups, commands by tag and programmatic, mixed spellings, clusters, repeated occurrences). After every successful parse each option field, the callback log and every untagged field are compared with the reference semantics R. Holds on everything explored; no proof of absence.",
          RNOTE, "DESIGN.md §4 C01"),
+ "C02": ("exploration",
+         "property-based testing (rapid): metamorphic relation between two admissible spellings of one option occurrence on the real parser",
+         "Generated search over declaration x surrounding argv x option x hostile value x ordered pair of admissible spellings (and cluster vs separate flags); both vectors are parsed by the real parser on fresh builds and the complete outcomes (values, callbacks, remaining args, chain, error type+message) must be identical. Inadmissible pairs (the statement's documented exceptions, token identity) are excluded by construction and counted.",
+         "admissibility rules are taken from the statement; R is used only to confirm the occurrence is reached as an option (not in a pass-through region); reflect.StructOf declarations",
+         "DESIGN.md §4 C02"),
  "C03": ("exploration",
          "property-based testing (rapid): reference-model comparison plus model-free subsequence/conservation invariant over remaining arguments",
          "Generated search over argv rich in pass-through tokens under all 8 combinations of PassDoubleDash/PassAfterNonOption/IgnoreUnknown; remaining args, positional fields and the args seen by Execute/CommandHandler are compared with R, and - when positionals are strings - a model-free subsequence + token-count conservation check is applied.",
